@@ -276,7 +276,8 @@ def checkElems (env : Env) : Nat → String → List Lit → Kinds
     let errs := match v with
       | .struct fs => checkLit env f e fs
       | .arr _ => []                      -- nested lists are dropped by `parse_json`
-      | _ => if litHasType v e then [] else ["array_element_type"]
+      | _ => if (env.struct? e).isSome then ["array_element_type"]   -- a Struct is expected
+             else if litHasType v e then [] else ["array_element_type"]
     if !errs.isEmpty then errs else checkElems env f e rest
 end
 
@@ -319,6 +320,21 @@ def exprIsString (env : Env) (vars : List (String × Ty)) : Expr → Option Bool
     | none => none
   | _ => some false
 
+/-- the operators whose operands have to be boolean -/
+def boolOps : List String := ["And", "Or"]
+
+/-- `expression_is_boolean` (on an operand that has passed `check_expression`); `none` = raises -/
+def exprIsBoolean (env : Env) (vars : List (String × Ty)) : Expr → Option Bool
+  | .lit (.bool _) => some true
+  | .lit _ => some false
+  | .path p => match typeOfPath env vars p with
+    | some ty => some (ty == .name "boolean")
+    | none => none
+  | .not _ => some true
+  | .paren e => exprIsBoolean env vars e
+  | .bin op _ _ => some (!arithOps.contains op)
+  | .none => some false
+
 /-- `check_attribute_accesses_in_operand`: the messages for all attribute accesses inside an operand -/
 def operandAccessErrs (env : Env) (vars : List (String × Ty)) : Expr → Kinds
   | .path p => checkAccessExpr env vars p
@@ -338,7 +354,14 @@ def checkExpr (env : Env) (vars : List (String × Ty)) : Expr → Option Kinds
       match typeOfPath env vars p with
       | none => none
       | some ty => if ty == .name "number" || ty == .name "boolean" then some [] else some ["not_boolean"]
-  | .not e => checkExpr env vars e
+  | .not e =>
+    match checkExpr env vars e with
+    | none => none
+    | some (x :: xs) => some (x :: xs)
+    | some [] => match exprIsString env vars e with
+      | none => none
+      | some true => some ["string_negated"]
+      | some false => some []
   | .paren e => checkExpr env vars e
   | .bin op l r =>
     -- every attribute access inside the operands must be resolvable before a type is looked up
@@ -375,7 +398,20 @@ def checkExpr (env : Env) (vars : List (String × Ty)) : Expr → Option Kinds
           match checkExpr env vars l with
           | none => none
           | some (e :: es) => some (e :: es)
-          | some [] => checkExpr env vars r
+          | some [] =>
+            match checkExpr env vars r with
+            | none => none
+            | some (e :: es) => some (e :: es)
+            | some [] =>
+              if boolOps.contains op then
+                match exprIsBoolean env vars l with
+                | none => none
+                | some bl =>
+                  match (if bl then exprIsBoolean env vars r else some false) with
+                  | none => none
+                  | some true => some []
+                  | some false => some ["and_or_types"]
+              else some []
 
 /-- the whole expression of a Condition / While Loop: not a string literal, then `check_expression` -/
 def checkTopExpr (env : Env) (vars : List (String × Ty)) (e : Expr) : Option Kinds :=
@@ -426,7 +462,7 @@ def checkCallMatches (env : Env) (vars : List (String × Ty)) (c : Call) (callee
   else if callee.outs.length != callOuts.length then some ["output_length"]
   else
     let inErrs : Option Kinds := (c.ins.zip calleeIns).foldl
-      (fun acc (a, formal) => optKAppend acc (checkArgType env vars formal.2 a)) (some [])
+      (fun acc x => optKAppend acc (checkArgType env vars x.2.2 x.1)) (some [])
     let outErrs : Kinds := (callOuts.zip callee.outs).flatMap (fun (o, v) =>
       match lookupLast callee.variables v with
       | some ty => if ty.str != o.2.str then ["output_type"] else []
@@ -499,40 +535,45 @@ end
 /-! ### recursion -/
 
 mutual
-def Stmt.callees : Stmt → List String
+/-- the task calls inside a statement (not across calls), with their lines -/
+def Stmt.calls : Stmt → List Call
   | .svc _ => []
-  | .call c => [c.name]
-  | .par cs _ => cs.map (·.name)
-  | .cond _ p f _ => calleesL p ++ calleesL f
-  | .cloop _ _ _ b _ => calleesL b
-  | .wloop _ b _ => calleesL b
-def calleesL : List Stmt → List String
+  | .call c => [c]
+  | .par cs _ => cs
+  | .cond _ p f _ => callsL p ++ callsL f
+  | .cloop _ _ _ b _ => callsL b
+  | .wloop _ b _ => callsL b
+def callsL : List Stmt → List Call
   | [] => []
-  | s :: ss => s.callees ++ calleesL ss
+  | s :: ss => s.calls ++ callsL ss
 end
 
-/-- `reaches(name, target, visited)` of `check_for_recursive_task_calls` (depth-first, visited set) -/
+def calleesL (b : List Stmt) : List String := (callsL b).map (·.name)
+
+/-- `reaches(name, target, visited)` of `check_for_recursive_task_calls`: depth-first search over
+    the names in `work`, sharing the visited set (Python's `any` stops at the first hit) -/
 def reaches (env : Env) (target : String) : Nat → List String → List String → Bool × List String
   | 0, _, visited => (false, visited)
   | _, [], visited => (false, visited)
   | f+1, name :: more, visited =>
-    -- `any(...)` over the callees, sharing `visited`
     let here : Bool × List String :=
-      match env.task? name with
-      | none => (false, visited)
-      | some t =>
-        if visited.contains name then (false, visited)
-        else
-          let visited := name :: visited
-          let cs := calleesL t.body
-          if cs.contains target then (true, visited) else reaches env target f cs visited
+      if name == target then (true, visited)
+      else
+        match env.task? name with
+        | none => (false, visited)
+        | some t =>
+          if visited.contains name then (false, visited)
+          else reaches env target f (calleesL t.body) (name :: visited)
     if here.1 then here else reaches env target f more here.2
 
+def reachFuel (env : Env) : Nat :=
+  (env.tasks.length + 1) * (env.tasks.length + 1) + (env.tasks.flatMap (fun t => calleesL t.body)).length + 2
+
+/-- every task call that lies on a cycle of the call graph is reported, at the call -/
 def recursionErrs (env : Env) : List Err :=
-  env.tasks.filterMap (fun t =>
-    if (reaches env t.name ((env.tasks.length + 1) * (env.tasks.length + 1) + (env.tasks.flatMap (fun t => calleesL t.body)).length + 2)
-          [t.name] []).1
-    then some ⟨"recursion", t.line⟩ else none)
+  env.tasks.flatMap (fun t =>
+    (callsL t.body).filterMap (fun c =>
+      if (reaches env t.name (reachFuel env) [c.name] []).1 then some ⟨"recursion", c.line⟩ else none))
 
 /-! ### the whole validation -/
 
